@@ -352,15 +352,14 @@ theorem mintFee_unit {s : State} {len : Nat} {d : String} {n : Int} (h : mintFee
 
 /-! ### inversion: what an accepted handler did -/
 
-theorem issue_ok {s s' : State} {owner symbol name minUnit : String} {scale init max : Nat} {mintable : Bool}
-    (h : stepIssue s owner symbol name minUnit scale init max mintable = .ok s') :
-    issueValid owner symbol name minUnit scale init max mintable = true ∧ blocked s owner = false ∧
+/-- what an accepted `msgServer.IssueToken` did -/
+theorem issueH_ok {s s' : State} {owner symbol name minUnit : String} {scale init max : Nat} {mintable : Bool}
+    (h : handleIssue s owner symbol name minUnit scale init max mintable = .ok s') :
+    blocked s owner = false ∧
     ∃ s1, deductFee s owner (issueFee s symbol.length) = .ok s1 ∧
       AMap.contains s1.tokens symbol = false ∧ AMap.contains s1.minUnits minUnit = false ∧
       s' = addIssued s1 (issuedToken owner symbol name minUnit scale init max mintable) := by
-  unfold stepIssue at h
-  split at h; · cases h
-  rename_i hv
+  unfold handleIssue at h
   split at h; · cases h
   rename_i hb
   split at h; · cases h
@@ -370,15 +369,26 @@ theorem issue_ok {s s' : State} {owner symbol name minUnit : String} {scale init
   split at h; · cases h
   rename_i hc2
   cases h
-  exact ⟨by simpa using hv, by simpa using hb, s1, h1, by simpa using hc1, by simpa using hc2, rfl⟩
+  exact ⟨by simpa using hb, s1, h1, by simpa using hc1, by simpa using hc2, rfl⟩
 
-theorem edit_ok {s s' : State} {owner symbol name : String} {max : Nat} {mintable : String}
-    (h : stepEdit s owner symbol name max mintable = .ok s') :
+theorem issue_ok {s s' : State} {owner symbol name minUnit : String} {scale init max : Nat} {mintable : Bool}
+    (h : stepIssue s owner symbol name minUnit scale init max mintable = .ok s') :
+    issueValid owner symbol name minUnit scale init max mintable = true ∧ blocked s owner = false ∧
+    ∃ s1, deductFee s owner (issueFee s symbol.length) = .ok s1 ∧
+      AMap.contains s1.tokens symbol = false ∧ AMap.contains s1.minUnits minUnit = false ∧
+      s' = addIssued s1 (issuedToken owner symbol name minUnit scale init max mintable) := by
+  unfold stepIssue at h
+  split at h; · cases h
+  rename_i hv
+  exact ⟨by simpa using hv, issueH_ok h⟩
+
+/-- what an accepted `msgServer.EditToken` did -/
+theorem editH_ok {s s' : State} {owner symbol name : String} {max : Nat} {mintable : String}
+    (h : handleEdit s owner symbol name max mintable = .ok s') :
     ∃ t, AMap.get? s.tokens symbol = some t ∧ owner = t.owner ∧
       ¬ (0 < max ∧ max * pow10 t.scale < supplyOf s t.minUnit) ∧
       s' = { s with tokens := AMap.set s.tokens symbol (edited t name max mintable) } := by
-  unfold stepEdit at h
-  split at h; · cases h
+  unfold handleEdit at h
   split at h; · cases h
   rename_i t ht
   split at h; · cases h
@@ -387,6 +397,15 @@ theorem edit_ok {s s' : State} {owner symbol name : String} {max : Nat} {mintabl
   rename_i hm
   cases h
   exact ⟨t, ht, by simpa using ho, hm, rfl⟩
+
+theorem edit_ok {s s' : State} {owner symbol name : String} {max : Nat} {mintable : String}
+    (h : stepEdit s owner symbol name max mintable = .ok s') :
+    ∃ t, AMap.get? s.tokens symbol = some t ∧ owner = t.owner ∧
+      ¬ (0 < max ∧ max * pow10 t.scale < supplyOf s t.minUnit) ∧
+      s' = { s with tokens := AMap.set s.tokens symbol (edited t name max mintable) } := by
+  unfold stepEdit at h
+  split at h; · cases h
+  exact editH_ok h
 
 theorem mintChecked_ok {s s' : State} {owner rcpt denom : String} {amount : Nat}
     (h : mintChecked s owner rcpt denom amount = .ok s') :
@@ -405,53 +424,82 @@ theorem mintChecked_ok {s s' : State} {owner rcpt denom : String} {amount : Nat}
   cases h
   exact ⟨t, ht, by simpa using ho, by simpa using hmt, by omega, rfl⟩
 
-theorem mint_ok {s s' : State} {owner to denom : String} {amount : Int}
-    (h : stepMint s owner to denom amount = .ok s') :
-    0 < amount ∧ blocked s (rcptOf owner to) = false ∧
+/-- what an accepted `msgServer.MintToken` did -/
+theorem mintH_ok {s s' : State} {owner to denom : String} {amount : Int}
+    (h : handleMint s owner to denom amount = .ok s') :
+    blocked s (rcptOf owner to) = false ∧
     ∃ sym s1, AMap.get? s.minUnits denom = some sym ∧ deductFee s owner (mintFee s sym.length) = .ok s1 ∧
       mintChecked s1 owner (rcptOf owner to) denom amount.toNat = .ok s' := by
-  unfold stepMint at h
-  split at h; · cases h
-  rename_i hv
+  unfold handleMint at h
   split at h; · cases h
   rename_i hb
   split at h; · cases h
   rename_i sym hs
   split at h; · cases h
   rename_i s1 h1
-  refine ⟨?_, by simpa using hb, sym, s1, hs, h1, h⟩
+  exact ⟨by simpa using hb, sym, s1, hs, h1, h⟩
+
+/-- an accepted v1 mint passed `ValidateBasic` and the msg-server method -/
+theorem mint_handle {s s' : State} {owner to denom : String} {amount : Int}
+    (h : stepMint s owner to denom amount = .ok s') :
+    0 < amount ∧ validSymbol denom = true ∧ handleMint s owner to denom amount = .ok s' := by
+  unfold stepMint at h
+  split at h; · cases h
+  rename_i hv
   have hv' : (isAddr owner && (to = "" || isAddr to) && decide (0 < amount) && validSymbol denom) = true := by
     cases hx : (isAddr owner && (to = "" || isAddr to) && decide (0 < amount) && validSymbol denom) with
     | true => rfl
     | false => rw [hx] at hv; exact absurd rfl hv
   simp only [Bool.and_eq_true, decide_eq_true_eq] at hv'
-  exact hv'.1.2
+  exact ⟨hv'.1.2, hv'.2, h⟩
+
+theorem mint_ok {s s' : State} {owner to denom : String} {amount : Int}
+    (h : stepMint s owner to denom amount = .ok s') :
+    0 < amount ∧ blocked s (rcptOf owner to) = false ∧
+    ∃ sym s1, AMap.get? s.minUnits denom = some sym ∧ deductFee s owner (mintFee s sym.length) = .ok s1 ∧
+      mintChecked s1 owner (rcptOf owner to) denom amount.toNat = .ok s' := by
+  obtain ⟨hpos, _, hh⟩ := mint_handle h
+  exact ⟨hpos, mintH_ok hh⟩
+
+/-- what an accepted `msgServer.BurnToken` did -/
+theorem burnH_ok {s s' : State} {sender denom : String} {amount : Int}
+    (h : handleBurn s sender denom amount = .ok s') :
+    (∃ t, tokenByMinUnit s denom = some t) ∧
+    ∃ b, s.bank.burn sender denom amount.toNat = some b ∧
+      s' = { s with bank := b, burned := AMap.set s.burned denom (burnedOf s denom + amount.toNat) } := by
+  unfold handleBurn at h
+  split at h; · cases h
+  rename_i t ht
+  split at h; · cases h
+  rename_i b hb
+  cases h
+  exact ⟨⟨t, ht⟩, b, hb, rfl⟩
+
+theorem burn_handle {s s' : State} {sender denom : String} {amount : Int}
+    (h : stepBurn s sender denom amount = .ok s') :
+    0 < amount ∧ validSymbol denom = true ∧ handleBurn s sender denom amount = .ok s' := by
+  unfold stepBurn at h
+  split at h; · cases h
+  rename_i hv
+  have hv' : (isAddr sender && decide (0 < amount) && validSymbol denom) = true := by simpa using hv
+  simp only [Bool.and_eq_true, decide_eq_true_eq] at hv'
+  exact ⟨hv'.1.2, hv'.2, h⟩
 
 theorem burn_step_ok {s s' : State} {sender denom : String} {amount : Int}
     (h : stepBurn s sender denom amount = .ok s') :
     0 < amount ∧ (∃ t, tokenByMinUnit s denom = some t) ∧
     ∃ b, s.bank.burn sender denom amount.toNat = some b ∧
       s' = { s with bank := b, burned := AMap.set s.burned denom (burnedOf s denom + amount.toNat) } := by
-  unfold stepBurn at h
-  split at h; · cases h
-  rename_i hv
-  split at h; · cases h
-  rename_i t ht
-  split at h; · cases h
-  rename_i b hb
-  cases h
-  refine ⟨?_, ⟨t, ht⟩, b, hb, rfl⟩
-  have hv' : (isAddr sender && decide (0 < amount) && validSymbol denom) = true := by simpa using hv
-  simp only [Bool.and_eq_true, decide_eq_true_eq] at hv'
-  exact hv'.1.2
+  obtain ⟨hpos, _, hh⟩ := burn_handle h
+  exact ⟨hpos, burnH_ok hh⟩
 
-theorem transferOwner_ok {s s' : State} {src dst symbol : String}
-    (h : stepTransferOwner s src dst symbol = .ok s') :
+/-- what an accepted `msgServer.TransferTokenOwner` did -/
+theorem transferH_ok {s s' : State} {src dst symbol : String}
+    (h : handleTransferOwner s src dst symbol = .ok s') :
     blocked s dst = false ∧ ∃ t, AMap.get? s.tokens symbol = some t ∧ src = t.owner ∧
       s' = { s with tokens := AMap.set s.tokens symbol { t with owner := dst },
                     owners := AMap.set (AMap.erase s.owners (src, symbol)) (dst, symbol) symbol } := by
-  unfold stepTransferOwner at h
-  split at h; · cases h
+  unfold handleTransferOwner at h
   split at h; · cases h
   rename_i hb
   split at h; · cases h
@@ -460,6 +508,161 @@ theorem transferOwner_ok {s s' : State} {src dst symbol : String}
   rename_i ho
   cases h
   exact ⟨by simpa using hb, t, ht, by simpa using ho, rfl⟩
+
+theorem transferOwner_ok {s s' : State} {src dst symbol : String}
+    (h : stepTransferOwner s src dst symbol = .ok s') :
+    blocked s dst = false ∧ ∃ t, AMap.get? s.tokens symbol = some t ∧ src = t.owner ∧
+      s' = { s with tokens := AMap.set s.tokens symbol { t with owner := dst },
+                    owners := AMap.set (AMap.erase s.owners (src, symbol)) (dst, symbol) symbol } := by
+  unfold stepTransferOwner at h
+  split at h; · cases h
+  exact transferH_ok h
+
+/-! ### the legacy (v1beta1) Msg service -/
+
+/-- where the adapter only copies fields, the legacy operation *is* the v1 operation: the same
+`ValidateBasic` rules, the same msg-server method, on the same arguments — accepted and rejected alike -/
+theorem step_norm (s : State) (op : Op) : step s op = step s (norm op) := by
+  cases op <;> rfl
+
+theorem norm_idem (op : Op) : norm (norm op) = norm op := by
+  cases op <;> rfl
+
+/-! `LegacyDec(a).Mul(LegacyDec(b)).TruncateInt()` of two non-negative integers is their product -/
+
+theorem chopRoundNat_mul (n : Nat) : chopRoundNat (n * 1000000000000000000) = n := by
+  have h1 : n * 1000000000000000000 % 1000000000000000000 = 0 := Nat.mul_mod_left _ _
+  have h2 : n * 1000000000000000000 / 1000000000000000000 = n := Nat.mul_div_cancel n (by decide)
+  unfold chopRoundNat
+  simp only [h1, h2, if_true]
+
+theorem precision_cast : precision = ((1000000000000000000 : Nat) : Int) := rfl
+
+theorem ofInt_mul_raw (a b : Nat) :
+    (Dec.ofInt (a : Int)).raw * (Dec.ofInt (b : Int)).raw = (((a * b * 1000000000000000000 : Nat) * 1000000000000000000 : Nat) : Int) := by
+  simp only [Dec.ofInt]
+  rw [precision_cast]
+  generalize (1000000000000000000 : Nat) = K
+  simp only [Int.natCast_mul]
+  ac_rfl
+
+theorem chopRound_ofInt_mul (a b : Nat) :
+    chopRound ((Dec.ofInt (a : Int)).raw * (Dec.ofInt (b : Int)).raw) = ((a * b * 1000000000000000000 : Nat) : Int) := by
+  rw [ofInt_mul_raw]
+  unfold chopRound
+  have hnn : ¬ ((((a * b * 1000000000000000000 : Nat) * 1000000000000000000 : Nat) : Int) < 0) := by omega
+  rw [if_neg hnn, Int.natAbs_natCast, chopRoundNat_mul]
+
+theorem chopTrunc_mul (m : Nat) : chopTrunc ((m * 1000000000000000000 : Nat) : Int) = (m : Int) := by
+  unfold chopTrunc
+  rw [precision_cast]
+  generalize hK : (1000000000000000000 : Nat) = K
+  have hK0 : (K : Int) ≠ 0 := by subst hK; decide
+  rw [Int.natCast_mul]
+  exact Int.mul_tdiv_cancel _ hK0
+
+theorem dec_mul_trunc {a b : Nat} {r : Dec} {n : Int}
+    (h1 : (Dec.ofInt (a : Int)).mul (Dec.ofInt (b : Int)) = some r) (h2 : r.truncateInt = some n) :
+    n = ((a * b : Nat) : Int) := by
+  unfold Dec.mul at h1
+  rw [chopRound_ofInt_mul] at h1
+  unfold chkDec at h1
+  split at h1
+  · simp only [Option.map_some, Option.some.injEq] at h1
+    subst h1
+    unfold Dec.truncateInt at h2
+    simp only at h2
+    rw [chopTrunc_mul] at h2
+    unfold chkInt at h2
+    split at h2
+    · cases h2; rfl
+    · cases h2
+  · cases h1
+
+/-- an accepted `legacyMinCoin`: the min unit of the token and exactly `amount · 10^scale` -/
+theorem legacyMinCoin_ok {t : Token} {symbol : String} {amount : Nat} {d : String} {n : Int}
+    (h : legacyMinCoin t symbol amount = .ok (d, n)) :
+    t.symbol = symbol ∧ d = t.minUnit ∧ n = ((amount * pow10 t.scale : Nat) : Int) ∧ validDenom t.minUnit = true := by
+  unfold legacyMinCoin at h
+  split at h; · cases h
+  split at h; · cases h
+  rename_i hsym
+  split at h; · cases h
+  rename_i a ha
+  split at h; · cases h
+  rename_i n' hn
+  split at h; · cases h
+  rename_i hvd
+  cases h
+  exact ⟨by simpa using hsym, rfl, dec_mul_trunc ha hn, by simpa using hvd⟩
+
+/-- an accepted legacy mint: the v1beta1 `ValidateBasic` passed, the SYMBOL names a token, and the v1
+msg-server method accepted the coin `amount · 10^scale` of that token's min unit -/
+theorem legacyMint_ok {s s' : State} {owner to symbol : String} {amount : Nat}
+    (h : stepLegacyMint s owner to symbol amount = .ok s') :
+    0 < amount ∧ amount ≤ maxU64 ∧ ∃ t, AMap.get? s.tokens symbol = some t ∧ t.symbol = symbol ∧
+      validDenom t.minUnit = true ∧
+      handleMint s owner to t.minUnit ((amount * pow10 t.scale : Nat) : Int) = .ok s' := by
+  unfold stepLegacyMint at h
+  split at h; · cases h
+  rename_i hv
+  have hv' : legacyMintValid owner to symbol amount = true := by simpa using hv
+  unfold legacyMintValid at hv'
+  simp only [Bool.and_eq_true, decide_eq_true_eq] at hv'
+  split at h; · cases h
+  rename_i t ht
+  split at h; · cases h
+  rename_i d n hc
+  obtain ⟨e1, e2, e3, e4⟩ := legacyMinCoin_ok hc
+  subst e2 e3
+  exact ⟨hv'.1.1.2, hv'.1.2, t, ht, e1, e4, h⟩
+
+theorem legacyBurn_ok {s s' : State} {sender symbol : String} {amount : Nat}
+    (h : stepLegacyBurn s sender symbol amount = .ok s') :
+    0 < amount ∧ amount ≤ maxU64 ∧ ∃ t, AMap.get? s.tokens symbol = some t ∧ t.symbol = symbol ∧
+      validDenom t.minUnit = true ∧
+      handleBurn s sender t.minUnit ((amount * pow10 t.scale : Nat) : Int) = .ok s' := by
+  unfold stepLegacyBurn at h
+  split at h; · cases h
+  rename_i hv
+  have hv' : legacyBurnValid sender symbol amount = true := by simpa using hv
+  unfold legacyBurnValid at hv'
+  simp only [Bool.and_eq_true, decide_eq_true_eq] at hv'
+  split at h; · cases h
+  rename_i t ht
+  split at h; · cases h
+  rename_i d n hc
+  obtain ⟨e1, e2, e3, e4⟩ := legacyMinCoin_ok hc
+  subst e2 e3
+  exact ⟨hv'.1.1.2, hv'.1.2, t, ht, e1, e4, h⟩
+
+theorem pow10_pos (n : Nat) : 0 < pow10 n := Nat.pow_pos (by decide)
+
+/-- the translated amount of an accepted legacy mint / burn is positive -/
+theorem legacy_amount_pos {amount scale : Nat} (h : 0 < amount) : (0 : Int) < ((amount * pow10 scale : Nat) : Int) := by
+  have := Nat.mul_pos h (pow10_pos scale)
+  omega
+
+/-- an accepted `UpgradeERC20`: sent by the authority, ERC20 enabled, a beacon configured, the EVM
+answering, an implementation with code — and nothing but the beacon's implementation changed -/
+theorem upgrade_ok {s s' : State} {authority impl : String}
+    (h : stepUpgradeErc20 s authority impl = .ok s') :
+    authority = GOV ∧ s.params.erc20 = true ∧ s.params.beacon = true ∧ s.fault ≠ "call_err" ∧
+      hasCode s impl = true ∧ s' = { s with impl := impl } := by
+  unfold stepUpgradeErc20 at h
+  split at h; · cases h
+  split at h; · cases h
+  rename_i ha
+  split at h; · cases h
+  rename_i he
+  split at h; · cases h
+  rename_i hb
+  split at h; · cases h
+  rename_i hf
+  split at h; · cases h
+  rename_i hc
+  cases h
+  exact ⟨by simpa using ha, by simpa using he, by simpa using hb, hf, by simpa using hc, rfl⟩
 
 theorem swapMoves_ok {s s' : State} {sender rcpt denom target : String} {b m : Int}
     (h : swapMoves s sender rcpt denom target b m = .ok s') :
@@ -628,18 +831,19 @@ structure Frame (s s' : State) : Prop where
   nonce     : s'.nonce = s.nonce
   fault     : s'.fault = s.fault
   env       : s'.env = s.env
+  impl      : s'.impl = s.impl
 
-theorem Frame.refl (s : State) : Frame s s := ⟨rfl, rfl, rfl, rfl, rfl, rfl, rfl, rfl, rfl⟩
+theorem Frame.refl (s : State) : Frame s s := ⟨rfl, rfl, rfl, rfl, rfl, rfl, rfl, rfl, rfl, rfl⟩
 
 theorem Frame.trans {a b c : State} (h1 : Frame a b) (h2 : Frame b c) : Frame a c :=
   ⟨h2.tokens.trans h1.tokens, h2.minUnits.trans h1.minUnits, h2.owners.trans h1.owners,
    h2.contracts.trans h1.contracts, h2.burned.trans h1.burned, h2.params.trans h1.params,
-   h2.nonce.trans h1.nonce, h2.fault.trans h1.fault, h2.env.trans h1.env⟩
+   h2.nonce.trans h1.nonce, h2.fault.trans h1.fault, h2.env.trans h1.env, h2.impl.trans h1.impl⟩
 
 theorem hook_frame {s s' : State} {src : String} {c : Nat} {to : String} {amount : Int}
     (h : stepHookSwap s src c to amount = .ok s') : Frame s s' := by
   obtain ⟨_, _, h3⟩ := hook_ok h
-  rcases h3 with ⟨rfl, _⟩ | ⟨sym, t, _, _, _, _, rfl⟩ <;> exact ⟨rfl, rfl, rfl, rfl, rfl, rfl, rfl, rfl, rfl⟩
+  rcases h3 with ⟨rfl, _⟩ | ⟨sym, t, _, _, _, _, rfl⟩ <;> exact ⟨rfl, rfl, rfl, rfl, rfl, rfl, rfl, rfl, rfl, rfl⟩
 
 /-- a property kept by every accepted `SwapToNative` log is kept by the whole receipt -/
 theorem logs_lift {P : State → Prop}
